@@ -186,6 +186,26 @@ class TrackedArray(np.ndarray):
         if isinstance(obj, type(self)):
             obj._dirty_hash = True
 
+    @property
+    def _dirty_hash(self):
+        """
+        Does the hash need to be recomputed. A view of another
+        TrackedArray changes whenever the array it views changes,
+        which the view can't observe, so a view is always dirty.
+        """
+        return self.__dict__.get("_dirty", True) or isinstance(self.base, TrackedArray)
+
+    @_dirty_hash.setter
+    def _dirty_hash(self, value):
+        self.__dict__["_dirty"] = value
+        if value:
+            # a write through a view also modifies
+            # the tracked arrays that it is a view of
+            base = self.base
+            while isinstance(base, TrackedArray):
+                base.__dict__["_dirty"] = True
+                base = base.base
+
     def __array_wrap__(self, out_arr, context=None, *args, **kwargs):
         """
         Return a numpy scalar if array is 0d.
